@@ -74,15 +74,14 @@ theorem mkMsg_len_attr (attr w u r a) :
 
 /-! ### `splitGroup` -/
 
-/-- Every attribute yielded fits `B` when every NLRI fits alone and `maxi ≤ B`. -/
-theorem splitGroup_bound (maxi hdr B : Nat) (hB : maxi ≤ B) :
-    ∀ (xs cur : List Nlri), (∀ x ∈ xs, attrLen (hdr + x.size) ≤ B) →
-      (sz cur = 0 ∨ attrLen (hdr + sz cur) ≤ B) →
-      ∀ it ∈ (splitGroup maxi hdr xs cur).1, attrLen (hdr + sz it) ≤ B := by
+/-- Every attribute yielded fits `maxi`. -/
+theorem splitGroup_bound (maxi hdr : Nat) :
+    ∀ (xs cur : List Nlri), (sz cur = 0 ∨ attrLen (hdr + sz cur) ≤ maxi) →
+      ∀ it ∈ splitGroup maxi hdr xs cur, attrLen (hdr + sz it) ≤ maxi := by
   intro xs
   induction xs with
   | nil =>
-    intro cur _ hc it hit
+    intro cur hc it hit
     unfold splitGroup at hit
     split at hit
     · simp at hit; subst hit
@@ -91,64 +90,34 @@ theorem splitGroup_bound (maxi hdr B : Nat) (hB : maxi ≤ B) :
       · exact h
     · simp at hit
   | cons x xs ih =>
-    intro cur hx hc it hit
+    intro cur hc it hit
     unfold splitGroup at hit
-    have hx0 := hx x (by simp)
-    have hxs : ∀ y ∈ xs, attrLen (hdr + y.size) ≤ B := fun y hy => hx y (by simp [hy])
     split at hit
-    · split at hit
-      · simp at hit
-      · rename_i hne
+    · exact ih cur hc it hit
+    · rename_i hx
+      have hx' : attrLen (hdr + x.size) ≤ maxi := Nat.le_of_not_gt hx
+      split at hit
+      · rename_i hbig
         simp only [List.mem_cons] at hit
         rcases hit with h | h
         · subst h
           rcases hc with h0 | h0
-          · exact absurd h0 hne
+          · exfalso
+            have e : hdr + sz it + x.size = hdr + x.size := by omega
+            rw [e] at hbig; omega
           · exact h0
-        · exact ih [x] hxs (Or.inr (by simpa using hx0)) it h
-    · rename_i hfit
-      refine ih (cur ++ [x]) hxs (Or.inr ?_) it hit
-      simp only [sz_append, sz_cons, sz_nil]
-      have : attrLen (hdr + sz cur + x.size) ≤ maxi := Nat.le_of_not_gt hfit
-      have e : hdr + (sz cur + (x.size + 0)) = hdr + sz cur + x.size := by omega
-      rw [e]; omega
+        · exact ih [x] (Or.inr (by simpa using hx')) it h
+      · rename_i hfit
+        refine ih (cur ++ [x]) (Or.inr ?_) it hit
+        simp only [sz_append, sz_cons, sz_nil]
+        have : attrLen (hdr + sz cur + x.size) ≤ maxi := Nat.le_of_not_gt hfit
+        have e : hdr + (sz cur + (x.size + 0)) = hdr + sz cur + x.size := by omega
+        rw [e]; exact this
 
-/-- The FIRST attribute yielded for a group fits `maxi` (it was built from a checked start). -/
-theorem splitGroup_head (maxi hdr : Nat) :
-    ∀ (xs cur : List Nlri), (sz cur = 0 ∨ attrLen (hdr + sz cur) ≤ maxi) →
-      ∀ it, (splitGroup maxi hdr xs cur).1.head? = some it → attrLen (hdr + sz it) ≤ maxi := by
-  intro xs
-  induction xs with
-  | nil =>
-    intro cur hc it hit
-    unfold splitGroup at hit
-    split at hit
-    · simp at hit; subst hit
-      rcases hc with h | h
-      · omega
-      · exact h
-    · simp at hit
-  | cons x xs ih =>
-    intro cur hc it hit
-    unfold splitGroup at hit
-    split at hit
-    · split at hit
-      · simp at hit
-      · rename_i hne
-        simp at hit; subst hit
-        rcases hc with h0 | h0
-        · exact absurd h0 hne
-        · exact h0
-    · rename_i hfit
-      refine ih (cur ++ [x]) (Or.inr ?_) it hit
-      simp only [sz_append, sz_cons, sz_nil]
-      have : attrLen (hdr + sz cur + x.size) ≤ maxi := Nat.le_of_not_gt hfit
-      have e : hdr + (sz cur + (x.size + 0)) = hdr + sz cur + x.size := by omega
-      rw [e]; exact this
-
-/-- Nothing is invented: every NLRI of a yielded attribute was in hand. -/
+/-- Nothing is invented, and an NLRI that cannot fit alone is in no attribute. -/
 theorem splitGroup_sub (maxi hdr : Nat) :
-    ∀ (xs cur : List Nlri), ∀ it ∈ (splitGroup maxi hdr xs cur).1, ∀ y ∈ it, y ∈ cur ∨ y ∈ xs := by
+    ∀ (xs cur : List Nlri), ∀ it ∈ splitGroup maxi hdr xs cur, ∀ y ∈ it,
+      y ∈ cur ∨ (y ∈ xs ∧ attrLen (hdr + y.size) ≤ maxi) := by
   intro xs
   induction xs with
   | nil =>
@@ -161,30 +130,35 @@ theorem splitGroup_sub (maxi hdr : Nat) :
     intro cur it hit y hy
     unfold splitGroup at hit
     split at hit
-    · split at hit
-      · simp at hit
+    · rcases ih cur it hit y hy with h1 | h1
+      · exact Or.inl h1
+      · exact Or.inr ⟨by simp [h1.1], h1.2⟩
+    · rename_i hx
+      have hx' : attrLen (hdr + x.size) ≤ maxi := Nat.le_of_not_gt hx
+      split at hit
       · simp only [List.mem_cons] at hit
         rcases hit with h | h
         · subst h; exact Or.inl hy
         · rcases ih [x] it h y hy with h1 | h1
-          · simp at h1; subst h1; exact Or.inr (by simp)
-          · exact Or.inr (by simp [h1])
-    · rcases ih (cur ++ [x]) it hit y hy with h1 | h1
-      · simp at h1
-        rcases h1 with h1 | h1
-        · exact Or.inl h1
-        · subst h1; exact Or.inr (by simp)
-      · exact Or.inr (by simp [h1])
+          · simp at h1; subst h1; exact Or.inr ⟨by simp, hx'⟩
+          · exact Or.inr ⟨by simp [h1.1], h1.2⟩
+      · rcases ih (cur ++ [x]) it hit y hy with h1 | h1
+        · simp at h1
+          rcases h1 with h1 | h1
+          · exact Or.inl h1
+          · subst h1; exact Or.inr ⟨by simp, hx'⟩
+        · exact Or.inr ⟨by simp [h1.1], h1.2⟩
 
-/-- Nothing is lost when no `RuntimeError` is raised: the yielded attributes, concatenated, are
-    exactly what was in hand followed by the input, in order. -/
+/-- Nothing that fits is lost: the yielded attributes, concatenated, are exactly what was in hand
+    followed by the NLRIs of the input that fit alone, in order. -/
 theorem splitGroup_flatten (maxi hdr : Nat) :
-    ∀ (xs cur : List Nlri), Pos xs → Pos cur → (splitGroup maxi hdr xs cur).2 = false →
-      (splitGroup maxi hdr xs cur).1.flatten = cur ++ xs := by
+    ∀ (xs cur : List Nlri), Pos xs → Pos cur →
+      (splitGroup maxi hdr xs cur).flatten
+        = cur ++ xs.filter (fun x => decide (attrLen (hdr + x.size) ≤ maxi)) := by
   intro xs
   induction xs with
   | nil =>
-    intro cur _ hc _
+    intro cur _ hc
     unfold splitGroup
     split
     · simp
@@ -193,26 +167,24 @@ theorem splitGroup_flatten (maxi hdr : Nat) :
       have := (sz_eq_zero_of_pos hc).1 this
       subst this; simp
   | cons x xs ih =>
-    intro cur hx hc he
+    intro cur hx hc
     have hxs : Pos xs := fun y hy => hx y (by simp [hy])
     have hx1 : Pos [x] := by intro y hy; simp at hy; subst hy; exact hx y (by simp)
-    unfold splitGroup at he ⊢
+    unfold splitGroup
     split
     · rename_i hbig
-      simp only [hbig, if_true] at he
-      split
-      · rename_i h0; simp [h0] at he
-      · rename_i h0
-        simp only [h0, if_false] at he
-        simp only [List.flatten_cons]
-        rw [ih [x] hxs hx1 he]; simp
+      have : ¬ attrLen (hdr + x.size) ≤ maxi := by omega
+      rw [ih cur hxs hc]; simp [List.filter_cons, this]
     · rename_i hfit
-      simp only [hfit, if_false] at he
-      have hc' : Pos (cur ++ [x]) := by
-        intro y hy
-        rcases List.mem_append.1 hy with h | h
-        · exact hc y h
-        · exact hx1 y h
-      rw [ih (cur ++ [x]) hxs hc' he]; simp
+      have hle : attrLen (hdr + x.size) ≤ maxi := Nat.le_of_not_gt hfit
+      split
+      · simp only [List.flatten_cons]
+        rw [ih [x] hxs hx1]; simp [List.filter_cons, hle]
+      · have hc' : Pos (cur ++ [x]) := by
+          intro y hy
+          rcases List.mem_append.1 hy with h | h
+          · exact hc y h
+          · exact hx1 y h
+        rw [ih (cur ++ [x]) hxs hc']; simp [List.filter_cons, hle]
 
 end Exa.Pack
